@@ -18,6 +18,10 @@ PROPS = {
             "rule": "one case per Alg object observed through the trace hooks (driven along TLC-generated call sequences, inner solvers, and the repository's own tests) validated by TLC against AlgLoopTrace.tla; non-trivial = the object performed at least two updates",
             "assumptions": ["protocol model checked for max_iter 0..3 (quick) / 0..4 (thorough) with up to max_iter+2 hand-driven updates", "early-stop probe compares solution arrays bitwise after one further update"],
             "trusted": TLC_BASE + ["tla2tools Json module", "trace hooks in sigpy/_verif.py"]},
+    "C20": {"level": "model_checking", "engines": [("trap", "trap", "run")],
+            "rule": "one case per TLC state of Trap.tla (designer, G, a) mapped to dimensional argument tuples, plus finished spoke assemblies of Spokes.tla; non-trivial = not at an exact ceil/floor tie (there only the requirement predicates are checked)",
+            "assumptions": ["dimensionless grid G in k/4, a in k/8 plus small values (see MC_Trap.tla); 5 unit systems (dgdt, dt)", "float tolerance 1e-9 relative on area/amplitude, 1e-7 on slew"],
+            "trusted": TLC_BASE, "exhaustive": True},
     "C09": {
         "level": "model_checking",
         "engines": [("index_maps", "index_maps", "run")],
@@ -32,6 +36,8 @@ PROPS = {
 HOOK_COMMITS = ["609775d"]
 
 ENGINES = [
+    {"name": "trap", "path": "harness/engines/trap.py + spec/Trap.tla, TrapDefs.tla, Spokes.tla, Rat.tla", "serves_properties": ["C20"],
+     "kind_free_text": "TLC sweep of rational (G, a) grid and spoke assemblies + replay on trap_grad/min_trap_grad/spokes_grad"},
     {"name": "alg_protocol", "path": "harness/engines/alg_protocol.py + harness/drivers/alg_driver.py + spec/AlgLoop.tla, spec/AlgLoopTrace.tla", "serves_properties": ["C15", "C02"],
      "kind_free_text": "TLC model checking of the iteration protocol; graph walks drive real Alg/App objects with hooks; batch trace validation of driver and test-suite executions"},
     {"name": "linop_algebra", "path": "harness/engines/linop.py + spec/LinopAlgebra.tla (CMat, ElementMaps, Shape)", "serves_properties": ["C01", "C02", "C03", "C04"],
@@ -44,6 +50,9 @@ _LINOP_NOTE = ("Trusted: TLC, the dump parser, the harness builder (spec api tre
                "Exact tier covers the index/broadcast/matmul/blocks/stack classes over Z[i]; FFT, NUFFT, Wavelet, Interpolate, Convolve and the MRI factories are "
                "bound by their own engines (see C05-C10, C16) and join the algebra in the opaque tier when built. GPU/MPI paths not run.")
 MANIFEST_TEXT = {
+    "C20": {"text": "Trap.tla transcribes both designers branch by branch in exact rationals (dimensionless units) and TLC checks the requirement predicates (ends at zero, exact area, amplitude, slew, defined) on every (G, a) of the grid incl. regime boundaries; Spokes.tla models the list surgery of spokes_grad. Every dumped design is called on the real functions in several unit systems; requirements are checked on the returned samples and the waveform is compared with the model (except at exact ceil/floor ties).",
+            "design_ref": "DESIGN.md section 5 C20", "note": "Trusted: TLC, Rat.tla arithmetic, float64 summation to 1e-9. Spoke sets whose blips are longer than a sub-pulse are treated as rejected input.",
+            "technique": "TLA+ rational transcription + TLC sweep + spec-to-code replay with requirement predicates"},
     "C15": {"text": "AlgLoop.tla (protocol of Alg.update/done and App.run) is model-checked by TLC (budget, counter, purity of done(), liveness of the canonical loop); behaviours of its state graph drive every Alg subclass and App with the trace hooks on; every Alg object observed - driven ones, inner solvers, and all objects created by the repository's tests - is validated by TLC against AlgLoopTrace.tla, including the harness's early-stop probe (tol=0, done() before the budget => one more update must leave the solution arrays bitwise unchanged, or a breakdown flag is set).",
             "design_ref": "DESIGN.md section 5 C15",
             "note": "Trusted: TLC, Json module, the hooks (sigpy/_verif.py), the driver's problem factories. Early-stop probe covers algorithms driven by the harness (all Alg subclasses, LinearLeastSquares per solver, L2ConstrainedMinimization, MaxEig). PowerMethod eigenvalue monotonicity: see power_method engine when listed.",
@@ -69,4 +78,4 @@ MANIFEST_TEXT = {
 }
 
 NOT_APPLICABLE = {p: "check not built yet in this round (planned, see DESIGN.md section 5)" for p in
-                  ["C05", "C06", "C07", "C08", "C10", "C11", "C12", "C13", "C14", "C16", "C17", "C18", "C19", "C20"]}
+                  ["C05", "C06", "C07", "C08", "C10", "C11", "C12", "C13", "C14", "C16", "C17", "C18", "C19"]}
